@@ -34,11 +34,11 @@ func (g *Gen) faultScenario() (setup []E, targets []E) {
 		g.idx[c] = map[string]bool{}
 		setup = append(setup, E{"op": "CreateCollection", "c": c})
 	}
-	if g.chance(0.7) {
+	if g.chance(0.8) {
 		g.idx[main]["x"] = true
 		setup = append(setup, E{"op": "CreateIndex", "c": main, "f": B("x")})
 	}
-	if g.chance(0.5) {
+	if g.chance(0.75) {
 		g.idx[main]["xy"] = true
 		setup = append(setup, E{"op": "CreateIndex", "c": main, "f": B("xy")})
 	}
@@ -205,7 +205,24 @@ func runFaultScenario(seed int64, be, mode string, perTarget, maxK, fuEvery int)
 		stride = 23
 	}
 	if perTarget > 0 && perTarget < len(targets) {
-		perm := g.r.Perm(len(targets))[:perTarget]
+		// the catalog operations are always among the targets, the rest is drawn
+		var perm []int
+		taken := map[int]bool{}
+		for i, t := range targets {
+			switch t["op"] {
+			case "DropIndex", "CreateIndex", "DropCollection":
+				perm = append(perm, i)
+				taken[i] = true
+			}
+		}
+		for _, i := range g.r.Perm(len(targets)) {
+			if len(perm) >= perTarget+3 {
+				break
+			}
+			if !taken[i] {
+				perm = append(perm, i)
+			}
+		}
 		sortInts(perm)
 		var sel []E
 		for _, i := range perm {
